@@ -90,7 +90,11 @@ func (s *Scen) blockVariants(par *Block, h *blkMsg, pre *chain.StateCtx) []*blkM
 		other = common.ValidatorIndex((uint64(other) + 1) % n)
 	}
 	okey := pre.KeyOf(other)
-	add("sig:wrong-key", func(m *blkMsg) bool { chain.Seal(pre, m.env, chain.SealOpts{Signer: &okey}); m.sigOK = false; return true })
+	add("sig:wrong-key", func(m *blkMsg) bool {
+		chain.Seal(pre, m.env, chain.SealOpts{Signer: &okey})
+		m.sigOK = false
+		return true
+	})
 	add("sig:wrong-domain-type", func(m *blkMsg) bool {
 		t := common.DOMAIN_BEACON_ATTESTER
 		chain.Seal(pre, m.env, chain.SealOpts{DomainType: &t})
